@@ -40,6 +40,7 @@ type VerifUnacked struct {
 	Queue string `json:"queue"`
 	MsgID uint64 `json:"msgID"`
 	Body  string `json:"body"`
+	MID   string `json:"mid"`
 }
 
 // VerifChannelSnap is the verification snapshot of a channel.
@@ -143,6 +144,9 @@ func (srv *Server) VerifSnapshot(deep bool) VerifSnapshot {
 				ch.ackLock.Lock()
 				for tag, u := range ch.ackStore {
 					vu := VerifUnacked{Tag: tag, CTag: u.cTag, Queue: u.queue, MsgID: u.msg.ID}
+					if u.msg.Header != nil && u.msg.Header.PropertyList != nil && u.msg.Header.PropertyList.MessageID != nil {
+						vu.MID = *u.msg.Header.PropertyList.MessageID
+					}
 					for _, f := range u.msg.Body {
 						if len(vu.Body) < 64 {
 							vu.Body += string(f.Payload)
